@@ -137,6 +137,7 @@ structure St where
   dirty : List Nat := []       -- `_dirtyset`
   now : Int := 1000000         -- virtual `time.time()` in ms
   last : Int := 1000000        -- `_last_changed_time`
+  moving : List Nat := []      -- `_kids_moving`: folders whose kids are being moved (innermost first)
   deriving Repr, Inhabited
 
 /-- provider pair + oracles -/
@@ -182,6 +183,8 @@ def getSt : M St := fun s => (.ok s, s)
 def modifySt (f : St → St) : M Unit := fun s => (.ok (), f s)
 def throwE {α} (e : Exc) : M α := fun s => (.error e, s)
 def assertM (b : Bool) : M Unit := if b then pure () else throwE .assert
+/-- `try: m finally: f` -/
+def finallyM {α} (m : M α) (f : St → St) : M α := fun s => match m s with | (r, s') => (r, f s')
 
 /-! ### queries -/
 
@@ -337,27 +340,34 @@ def moveKid (setF : SetF) (cfg : Cfg) (s : Sd) (sub : Nat) (prior path rel : Str
   setF sub s (.path (some newPath))
   fixSyncPath setF cfg s sub prior path
 
-/-- the `for sub, relative in self.get_kids(prior_path, side)` loop (state.py:851-876);
-    the snapshot `kids` was taken by `get_all()` when the generator started, fields are read lazily -/
-def kidsLoop (setF : SetF) (cfg : Cfg) (s : Sd) (e : Nat) (prior path : Str) : List Nat → M Unit
+/-- the `for sub, relative in self.get_kids(prior_path, side)` loop (state.py:866-890);
+    the snapshot `kids` was taken by `get_all()` when the generator started, fields are read lazily;
+    an entry whose own kids are being moved (`_kids_moving`, fix C) is skipped -/
+def kidsLoop (setF : SetF) (cfg : Cfg) (s : Sd) (prior path : Str) : List Nat → M Unit
   | [] => pure ()
   | sub :: rest => do
     let st ← getSt
     match kidRel cfg st s prior sub with
-    | none => kidsLoop setF cfg s e prior path rest
+    | none => kidsLoop setF cfg s prior path rest
     | some rel =>
-      if sub = e then kidsLoop setF cfg s e prior path rest      -- `if sub is ent: continue`
+      if st.moving.contains sub then kidsLoop setF cfg s prior path rest      -- `if any(sub is moving …): continue`
       else do
         moveKid setF cfg s sub prior path rel
-        kidsLoop setF cfg s e prior path rest
+        kidsLoop setF cfg s prior path rest
 
-/-- state.py:848-876 `_update_kids` -/
-def updateKids (setF : SetF) (cfg : Cfg) (s : Sd) (e : Nat) (prior : Option Str) (path : Str) : M Unit := do
+/-- `_update_kids_of` -/
+def updateKidsOf (setF : SetF) (cfg : Cfg) (s : Sd) (e : Nat) (prior : Option Str) (path : Str) : M Unit := do
   let st ← getSt
   match prior with
   | none => pure ()
   | some pr =>
-    whenM ((st.side e s).otype == .dir && pr != path) (kidsLoop setF cfg s e pr path (st.getAll false))
+    whenM ((st.side e s).otype == .dir && pr != path) (kidsLoop setF cfg s pr path (st.getAll false))
+
+/-- `_update_kids` (fix C): the entry is on the `_kids_moving` stack while its kids are moved, also when an exception escapes -/
+def updateKids (setF : SetF) (cfg : Cfg) (s : Sd) (e : Nat) (prior : Option Str) (path : Str) : M Unit :=
+  finallyM (do
+    modifySt (fun st => { st with moving := e :: st.moving })
+    updateKidsOf setF cfg s e prior path) (fun st => { st with moving := st.moving.tail })
 
 /-- state.py:833-837: the current owner of the `(path, oid)` slot is ousted (`prior_ent[side]._path = None`) -/
 def oustPathOwner (s : Sd) (e : Nat) (pth : Str) : M Unit := do
